@@ -474,6 +474,22 @@ theorem C12_each_trial_evaluated_once (P : DProb D R) (hn : 0 < P.n) (d : DState
 
 end Data
 
+/-! ## Finding: outside the hand-shake the result does depend on the worker count (tree as published)
+
+`C12_data_*` cover `walk_descents`.  The solver around it, `nnls_normal_block3`, calls `modify_factor`, whose choice
+between updating and recomputing the Cholesky factor compares `fl / (9 · get_nthreads() · (nH1+nH2) · modfl)` with 1. -/
+
+/-- **The update-vs-refactor decision depends on the worker count** (code as published; values logged by the real
+    solver on the check's regression instance, generator seed 2 / problem 2, at `F[10] G[18] H1[3]`: factor work 385,
+    modification work 12): with one worker the factor is updated row by row, with two it is recomputed.  The
+    differently rounded factors change the residual by 6·10⁻¹³ relative and, on that ill-conditioned problem, the final
+    coefficients by 0.51 (largest coefficient 0.58).  So "same coefficients for every worker count" is **false** of the
+    published tree.  After fixes/C12-2.diff the threshold uses the constant 16 and `modify_factor` no longer reads the
+    worker count.  The check extracts these numbers from the solver's own log on every run and evaluates `factorUpdate` on them. -/
+theorem C12_factor_update_depends_on_worker_count :
+    factorUpdate 1 true 10 385 12 3 = true ∧ factorUpdate 2 true 10 385 12 3 = false := by
+  decide
+
 /-! ### satisfiability of the hypotheses (non-trivial instances) -/
 /-- a complete run of the repaired protocol, 2 workers × 2 blocks (round-robin schedule) -/
 def exSchedule : List Nat :=
